@@ -91,9 +91,12 @@ structure GState where
   ncs : Nat
 deriving DecidableEq, Repr
 
+/-- Exceptions that can escape `execute` on the modelled operators.  Since the integrated fix
+`SC/SCN/sc/scn with too few operands` no modelled operator raises any more; the type is kept so that
+a re-introduced exception shows up as a correspondence disagreement (`EXC:<kind>`). -/
 inductive Err where
-  | typeError      -- `safe_rgb(*values)` / `safe_cmyk(*values)` with too few values
-  | indexError     -- `self.pop(1)[0]` on an empty stack
+  | typeError
+  | indexError
 deriving DecidableEq, Repr
 
 structure IState where
@@ -299,14 +302,14 @@ def doSetColourN (st : IState) (stroking : Bool) : Except Err IState :=
   if n = 1 then
     let (vals, st) := pop 1 st
     match vals with
-    | [] => .error .indexError
+    | [] => .ok st                       -- `gray = values[0] if values else None`: warning, colour kept
     | x :: _ =>
       match safeFloat x with
       | some r => .ok (setColour st stroking [r])
       | none => .ok st
   else if n = 3 ∨ n = 4 then
     let (vals, st) := pop n st
-    if vals.length ≠ n then .error .typeError
+    if vals.length ≠ n then .ok st       -- `safe_rgb(*values) if len(values) == 3 else None`: warning only
     else match allNums vals with
       | some xs => .ok (setColour st stroking xs)
       | none => .ok st
